@@ -1,0 +1,29 @@
+//! Verification hooks.
+//!
+//! Only compiled with the `verif-hooks` feature, which is off by default and
+//! only used by an external verification harness. The hooks allow the
+//! harness to widen the windows between critical sections (a seeded yield
+//! or sleep at named sites) and to inspect the version bookkeeping of the
+//! in-memory zone at quiescent points. They never change behaviour.
+
+use std::boxed::Box;
+use std::sync::RwLock;
+
+/// The type of a pause callback: it is given the name of the site.
+pub type PauseFn = Box<dyn Fn(&'static str) + Send + Sync>;
+
+static PAUSE: RwLock<Option<PauseFn>> = RwLock::new(None);
+
+/// Installs (or removes) the pause callback.
+pub fn set_pause(f: Option<PauseFn>) {
+    *PAUSE.write().unwrap_or_else(|e| e.into_inner()) = f;
+}
+
+/// Calls the pause callback, if any, for the given site.
+#[inline]
+pub fn pause(site: &'static str) {
+    if let Some(f) = PAUSE.read().unwrap_or_else(|e| e.into_inner()).as_ref()
+    {
+        f(site)
+    }
+}
